@@ -163,9 +163,11 @@ func (u *unsafeSerialTransaction) SetHandler(path string, src FileRecord, conten
 }
 
 func (u *unsafeSerialTransaction) Commit(ctx context.Context) ([]OpResult, error) {
-	if err := abortErr(u.ctx, ctx); err != nil {
+	if err := abortErr(context.Background(), ctx); err != nil {
 		return nil, err
 	}
+	// After Abort, still report one result per operation alongside the abort error.
+	err := abortErr(u.ctx, nil)
 	u.abort()
 	opCount := atomic.LoadInt64((*int64)(&u.nextOp))
 	results := make([]OpResult, opCount)
@@ -174,7 +176,7 @@ func (u *unsafeSerialTransaction) Commit(ctx context.Context) ([]OpResult, error
 		results[op] = result
 	}
 	u.resultsMu.Unlock()
-	return results, nil
+	return results, err
 }
 
 func (u *unsafeSerialTransaction) Abort() error {
